@@ -1,10 +1,1 @@
-import PytaskProofs.AuditTool
-import PytaskProofs.Properties.C01
-import PytaskProofs.Properties.C12
-import PytaskProofs.Properties.C10
-import PytaskProofs.Properties.C19
-import PytaskProofs.Properties.C07
-import PytaskProofs.Properties.C18
-import PytaskProofs.Properties.C13
-import PytaskProofs.Properties.C04
-import PytaskProofs.Properties.C08
+/-! The proof modules are built individually (see lakefile.toml: `globs`); this file only names the library. -/
